@@ -91,6 +91,10 @@ CORPUS = [
     [("ext", 1, ".b", ".a", False, None), ("ext", 2, ".c", ".b", False, None), ("rule", 0, ".a", None)],
     # X2: two extensions meeting in one compound (incremental extension loses `.y > b.x`)
     [("ext", 2, "b.x", ".y", False, None), ("rule", 0, ".y > a.y", None), ("ext", 1, ".x", "a", False, None)],
+    # X4: the second `MergedExtension::merge(..).unwrap()` (mod.rs:1093) still panics (D17 was fixed at mod.rs:973 only)
+    [("rule", 0, ".y", None), ("ext", 1, ".y", ".y", False, "screen"), ("ext", 2, ".y#i", ".y", False, "print")],
+    # X3: weave puts `.y` between `[t]:focus` and `b`
+    [("ext", 2, "[t]:focus + b", "#i", False, None), ("ext", 1, ".y ~ b[t]", "a", False, None), ("rule", 0, "#i + a.x", None)],
     # C11-S1 reaching trim: a generated selector dropped because of a wrong superselector answer
     [("rule", 0, ".t c", None), ("ext", 1, "a > b", ".t", False, None), ("ext", 2, "a > x > b", ".t", False, None)],
 ]
@@ -218,6 +222,11 @@ def run(tier, seed):
         log(f"[C10] {w}: t+{time.time() - T0:.1f}s")
 
     sheets = [(items, meta_of(items)) for items in CORPUS]
+    if big:
+        # X5 (does not terminate): only replayed in the thorough tier, a confirmed timeout costs minutes
+        x5 = [("ext", 1, ".y:focus", ":focus", False, None), ("ext", 3, "a.y ~ .y:hover", ".y", False, None),
+              ("ext", 2, ".y ~ #j", ".y", False, None)]
+        sheets.append((x5, meta_of(x5)))
     for k in range(700 if not big else 6000):
         sheets.append(gen_sheet(rng, k))
     texts = [sheet_text(it) for it, _ in sheets]
@@ -259,7 +268,13 @@ def run(tier, seed):
         if meta["media"]:
             ck.hist("with-@media")
         if g[0] in ("panic", "timeout", "abort", "bad"):
-            fail(text, {"impl_observation": g[:2]}, ["crash"])
+            tags = ["crash"]
+            msg = str(g[1])
+            if g[0] == "panic" and "selector/extend/mod.rs" in msg and "different media queries" in msg and "unwrap()" in msg:
+                tags.append("X4")
+            if g[0] == "timeout" and m_exp.startswith("ok") and "chain" in m_exp.split(" "):
+                tags.append("X5")
+            fail(text, {"impl_observation": g[:2]}, tags)
             ck.count(text, False)
             continue
         expect = [t for t in m_exp.split(" ")[1:] if t != "chain"] if m_exp.startswith("ok") else None
@@ -396,7 +411,7 @@ def run(tier, seed):
     #   X1: the stylesheet has an extension chain (a target occurs in an extender) and the failure is a missing match / an order difference
     #   X2: no chain, extensions with >= 2 different targets, the failure is a missing match / an order difference, and — whenever the
     #       stylesheet is inside the modelled fragment — the Lean model of the incremental algorithm reproduces grass's selectors
-    #   X3: chain with a complex extender, the rewritten selector matches too much
+    #   X3: a complex extender with a sibling combinator, the rewritten selector matches too much
     tie_ok = {}
     for (what, n, rid, a, b), ans in zip(fmeta, fouts):
         if what == "tie":
@@ -414,7 +429,8 @@ def run(tier, seed):
             elif distinct_targets >= 2 and (tie_ok.get(n, False) if outs[2 * n].startswith("ok") else outs[2 * n] == "unsupported"):
                 tags.append("X2")
                 payload["model_reproduces_grass"] = outs[2 * n].startswith("ok")
-        elif tags[0] == "too-much" and meta.get("chain") and meta["complex_extender"]:
+        elif tags[0] == "too-much" and meta["complex_extender"] and any(
+                it[0] == "ext" and ("+" in it[2] or "~" in it[2]) for it in sheets[n][0]):
             tags.append("X3")
         payload["tags"] = tags
     # S1 reaching trim: a failure that disappears when the model trims with the specified walk
@@ -442,7 +458,7 @@ def run(tier, seed):
     ck.cov["failing_samples_unattributed"] = [
         {"case": c, "tags": t, "why": p.get("why"), "rule": p.get("rule"), "impl": str(p.get("impl_observation"))[:300],
          "context": p.get("context"), "reversed": p.get("reversed_order"), "extender": p.get("extender")}
-        for _, c, p, t in failing if not set(t) & {"D16", "D18", "X1", "X2", "X3"}][:80]
+        for _, c, p, t in failing if not set(t) & {"D16", "D18", "X1", "X2", "X3", "X4", "X5"}][:80]
     ck.cov["failing_samples"] = [{"case": c, "tags": t, "why": p.get("why"), "rule": p.get("rule"), "impl": str(p.get("impl_observation"))[:160],
                                   "context": p.get("context")} for _, c, p, t in failing[:40]]
     if ck.cov["model_disagreements"] and not reported:
